@@ -55,6 +55,13 @@ Proof.
   - intros p nz H. discriminate.
 Qed.
 
+(* what is printed is accepted again and parses to the SAME value, for every accepted string (so `zerv check` shows a form that zerv
+   reads back unchanged, with or without the leading v) *)
+Theorem c08_reparse : forall s v, semver_parse s = Some v -> semver_parse (semver_print v) = Some v.
+Proof. exact semver_reparse. Qed.
+Theorem c08_v_prefix_irrelevant : forall s v, semver_parse s = Some v -> semver_parse (strip_v s) = Some v.
+Proof. exact parse_without_v. Qed.
+
 Check c08_regex_is_bnf : forall w, regex.lang semver_src w <-> regex.lang semver_spec w.
 Check c08_accepts_iff : forall s, (exists v, semver_parse s = Some v) <-> regex.lang semver_spec (map semver_atom_of s) /\ core_fits s.
 Check c08_lossless : forall s v, semver_parse s = Some v -> semver_print v = strip_v s.
@@ -71,3 +78,5 @@ Print Assumptions c08_accepts_iff.
 Print Assumptions c08_member_shape.
 Print Assumptions c08_lossless.
 Print Assumptions c08_check_agrees.
+Print Assumptions c08_reparse.
+Print Assumptions c08_v_prefix_irrelevant.
